@@ -507,6 +507,44 @@ func genTransferTokens(repo string) (string, error) {
 		ok = false
 	}
 	fmt.Fprintf(&b, "Definition transfer_buffer_has_room : bool := %v.\n", hasRoom)
+
+	// handler.go GracefulStopListeners: the function literal started per listener must work on its OWN listener: a variable
+	// defined inside the loop body (al := l) or a parameter - not the range variable itself under go < 1.22 semantics
+	own, recognised := false, false
+	if fd := FindFunc(hf, "connHandler", "GracefulStopListeners"); fd != nil {
+		perIter := goVersionAtLeast122(repo)
+		ast.Inspect(fd.Body, func(n ast.Node) bool {
+			rs, isr := n.(*ast.RangeStmt)
+			if !isr {
+				return true
+			}
+			val, _ := rs.Value.(*ast.Ident)
+			if val == nil {
+				return true
+			}
+			ast.Inspect(rs.Body, func(m ast.Node) bool {
+				fl, isf := m.(*ast.FuncLit)
+				if !isf {
+					return true
+				}
+				recognised = true
+				usesRangeVar := false
+				ast.Inspect(fl.Body, func(k ast.Node) bool {
+					if id, isid := k.(*ast.Ident); isid && id.Name == val.Name && id.Obj == val.Obj {
+						usesRangeVar = true
+					}
+					return true
+				})
+				own = !usesRangeVar || perIter
+				return false
+			})
+			return false
+		})
+	}
+	if !recognised {
+		ok = false
+	}
+	fmt.Fprintf(&b, "Definition shutdown_goroutine_has_own_listener : bool := %v.\n", own)
 	fmt.Fprintf(&b, "Definition TransferTokens_translator_ok := %v.\n", ok)
 	return b.String(), nil
 }
